@@ -222,9 +222,9 @@ def corpus():
 
 def run(h: Harness):
     rng = h.rng
-    limit = h.n(1500, 40000)
+    limit = h.n(1500, 8000)
     for spec in corpus():
         one(h, spec, limit)
-    for i in range(h.n(10, 120)):
+    for i in range(h.n(10, 50)):
         one(h, rec_spec(rng) if i % 3 == 0 else fc_spec(rng), limit)
     h.exhaustive = True
